@@ -47,7 +47,7 @@ def run(tier):
                               extra_cases=boundary_cases,
                               assumptions=['cases within 1e-9 (relative) of a float threshold are skipped and counted',
                                            'bit-level inclusivity of the geo-ratio bound is tested on the boundary grid, '
-                                           'proved only over an abstract value type'], gen_targets=searchfam.GEN_TARGETS_EXH)
+                                           'proved only over an abstract value type'], gen_targets=searchfam.GEN_TARGETS_ALL)
 
 
 def replay(data):
